@@ -167,6 +167,25 @@ def stepA (st : St Y) (m0 : Y.M) : Option (St Y) :=
   | none => none
   | some b => some ⟨b, tfn', st.out ++ [Y.mact 0 m']⟩
 
+/-- the chosen move: the best stabiliser image if one was preferred, else the move itself -/
+def sel {M : Type} (r : M × Option Sym) (m : M) : M := match r.2 with | some _ => r.1 | none => m
+
+/-- the new accumulated transform -/
+def selT {M : Type} (r : M × Option Sym) (t : Sym) : Sym := match r.2 with | some k => Sym.mul k t | none => t
+
+/-- the move played on board 0 in an iteration -/
+def pickM (st : St Y) (m0 : Y.M) : Y.M :=
+  sel (scan Y st.b0 (Y.mact st.tfn m0) others (Y.mact st.tfn m0, none)) (Y.mact st.tfn m0)
+
+/-- the accumulated transform after an iteration -/
+def pickT (st : St Y) (m0 : Y.M) : Sym :=
+  selT (scan Y st.b0 (Y.mact st.tfn m0) others (Y.mact st.tfn m0, none)) st.tfn
+
+theorem stepA_eq (st : St Y) (m0 : Y.M) :
+    stepA Y st m0 = match Y.step st.b0 (pickM Y st m0) with
+      | none => none
+      | some b => some ⟨b, pickT Y st m0, st.out ++ [Y.mact 0 (pickM Y st m0)]⟩ := rfl
+
 def runA : St Y → List Y.M → Option (St Y)
   | st, [] => some st
   | st, m :: ms => match stepA Y st m with
